@@ -82,7 +82,7 @@ func makeKeyed(r *tape.Rng, key int64, src int32) gen.Keyed {
 }
 
 // Key patterns for one input.
-var keyPatterns = []string{"disjoint", "touching", "nested", "identical", "runs", "alternating", "dups", "random"}
+var keyPatterns = []string{"disjoint", "touching", "nested", "identical", "runs", "alternating", "dups", "random", "partial"}
 
 // genKeys returns n keys for input i of k inputs according to a pattern.
 func genKeys(r *tape.Rng, pattern string, i, k, n int) []int64 {
@@ -107,6 +107,13 @@ func genKeys(r *tape.Rng, pattern string, i, k, n int) []int64 {
 			keys[j] = int64((block*k+i)*300 + j%300)
 		case "alternating":
 			keys[j] = int64(j*k + i)
+		case "partial":
+			// consecutive inputs overlap in a fifth of their key range and each
+			// first-column key repeats a few times: long lone stretches (range
+			// refinement), many pages starting exactly at a key boundary
+			dup := 1 + (n/500)%3*2
+			width := n / dup
+			keys[j] = int64(i*width*4/5 + j/dup)
 		case "dups":
 			keys[j] = int64(r.Intn(12))
 		default:
